@@ -16,7 +16,9 @@ from .inval import api_functions, base, D_ALL
 LAZY = {"ILLsymboltab::the_hash", "ILLsymboltab::the_index", "ILLsymboltab::the_prev_index", "ILLsymboltab::index_ok",
         "ILLsymbolent::index"}
 LAZY_REASON = "lazy index maintenance of the symbol tables inside a lookup: derived indices, not observable through the query API"
-LAZY_CALLS = {"ILLsymboltab_create": "lazy creation of an empty symbol table: a missing and an empty table are observably the same"}
+LAZY_CALLS = {"ILLsymboltab_create": "lazy creation of an empty symbol table: a missing and an empty table are observably the same",
+              "ILLlib_findName": "completes / generates the name in the caller's buffer; its only writes into the symbol tables are the lazy creation "
+                                 "of an empty table and the bookkeeping of a lookup"}
 EXCEPT_WRITES = {("ILLlib_chgrange", "rangeval"): "allocates the all-zero range array before checking the row's sense; a missing and an all-zero "
                                                  "array are observably the same (ILLlib_getrows reports range 0 for both)"}
 EXEMPT_FUNCS = {"ILLlib_strongbranch": "strong branching edits bounds temporarily and restores them; QSopt_strongbranch resets the status itself",
@@ -26,7 +28,10 @@ EXEMPT_FUNCS = {"ILLlib_strongbranch": "strong branching edits bounds temporaril
 # callees that can fail after having applied part of their batch (the R-ATOMIC known findings): an invalidation behind their failure is
 # a consequence of that finding, not a second violation
 HALF_APPLIED = ("ILLlib_addrows", "ILLlib_addcols")
-LOOKUPS = ("symboltab_lookup", "symboltab_getindex", "ILLlib_colindex", "ILLlib_rowindex", "symboltab_contains", "ILLutil_index")
+LOOKUPS = ("symboltab_lookup", "symboltab_getindex", "ILLlib_colindex", "ILLlib_rowindex", "symboltab_contains", "ILLutil_index",
+           "symboltab_register")
+# routines that copy / complete an external name into a buffer argument: the buffer carries the name
+NAMECOPY = ("ILLlib_findName",)
 
 
 def strip_prefix(rec):
@@ -110,6 +115,13 @@ def input_names(prog, apis, E=None):
                     if src in nm:
                         nm.add(l[2])
                         changed = True
+                if e[0] == "C" and any(x in (callee(e[1]) or "") for x in NAMECOPY):
+                    if any(is_var(a) and strip(a)[2] in nm for a in e[1][3]):
+                        for a in e[1][3]:
+                            a = strip(a)
+                            if is_var(a, kind="l") and a[2] not in nm and "char" in (f.ltypes.get(a[2]) or ""):
+                                nm.add(a[2])
+                                changed = True
                 if e[0] == "C" and any(x in (callee(e[1]) or "") for x in LOOKUPS):
                     # out-parameters of lookups of an external name carry the (in)validity of that name
                     if any(is_var(a) and strip(a)[2] in nm for a in e[1][3]):
@@ -418,6 +430,10 @@ def _used_results(f):
 
 def _append_slot(f, bid, idx, dimvars):
     e = f.blocks[bid]["e"][idx]
+    # growth of a number array (EGlpNumReallocArray: new storage, the old elements moved, the new ones initialised): storage, not content
+    macs = (e[3] if e[0] == "A" and len(e) > 3 else (e[1][5] if e[0] == "C" and len(e[1]) > 5 else [])) or []
+    if any(str(m).lstrip("@").endswith("ReallocArray") for m in macs):
+        return True
     if e[0] == "A":
         # growth: p->arr = realloc(p->arr, ...) and the self-assignment wrapping it (EGrealloc) move storage, not content
         lp_ = apath(e[1][2])
@@ -495,6 +511,15 @@ def run(prog, E=None, prefix="mpq_", rule="R-ATOMIC"):
                 continue
             if name in ("ILLutil_freerus", "free", "EGfree") and c[3] and _slot_expr(c[3][0], dimvars):
                 continue          # releasing the slot just past the current count (a parked block of a rejected append): unobservable
+            if name == "ILLsymboltab_register" and len(c[3]) >= 5:
+                # the registration writes only when the name is new and says so through its `existed` flag; a caller that tests the flag
+                # (R-HITUSED) rejects exactly on the branch on which nothing was written
+                a4 = strip(c[3][4])
+                if isinstance(a4, list) and a4 and a4[0] == "u" and a4[1] == "&" and is_var(a4[2], kind="l"):
+                    hv = strip(a4[2])[2]
+                    if any(f.blocks[bx].get("c") is not None and any(is_var(nd, name=hv) for nd in walk(f.blocks[bx]["c"]) if isinstance(nd, list))
+                           for bx in f.live):
+                        continue
             for (j, fp) in E.call_writes(f, ci):
                 d = observable_write(fp)
                 if d:
